@@ -6,6 +6,7 @@
 // operation sequence (three named ones and the result object, which is the object an operation returned) -- is a local of its branch in one(), i.e. it is DESTROYED before rec.paired() closes the recorded window:
 // the buffers still owned by result objects when the scenario ends are part of the pairing observation.
 // `:col`: ONE SimpleStringCollection through a history of split (delimiter of any length) / allocate / col[i] = s / size() / col[i].
+// `:als`: ONE object through statements whose argument is a pointer into its own buffer (s = s.asCharString() + k, s += s, s.replace(own, own) ...).
 // Observation: <value tokens> <reference agrees 0|1> <allocator pairing 0|1>
 #include <string>
 #include <memory>
@@ -221,6 +222,43 @@ static void one(Toks& t, Out& o)
             }
             snap(log);
             val = listTok(log);
+        }
+    }
+    else if (op == ":als") {
+        // ALIASING: ONE object s through a history of statements whose argument points into s's OWN buffer, written exactly as user code
+        // writes them (overload resolution picks whatever the class offers): <text> <nops> then
+        // :asgp k | :asgs | :ctor k | :appp k | :apps | :repl k1 k2 | observers :cmpp k | :cmps | :sstr k1 k2 | :scmp k1 k2.
+        // The recording allocator really frees a released buffer (ASan: any read of it is a crash). value = s at the end, then the observers' log.
+        t.bytes(A); int n = t.n();
+        std::string R = A; std::vector<std::string> log;
+        auto cnt = [](const std::string& ra, const std::string& rb) { size_t rn = 0; size_t pos = ra.find(rb, 0); while (pos != std::string::npos && pos < ra.size()) { rn++; pos = ra.find(rb, pos + 1); } return rn; };
+        auto ends = [](const std::string& ra, const std::string& rb) { return ra.size() >= rb.size() && ra.compare(ra.size() - rb.size(), rb.size(), rb) == 0; };
+        {
+            Cs a(A); SimpleString s(a.p);
+            for (int q = 0; q < n; q++) {
+                std::string w = t.next();
+                if (w == ":asgp") { size_t k = t.u(); s = s.asCharString() + k; R = R.substr(k); }
+                else if (w == ":asgs") { s = s; }
+                else if (w == ":ctor") { size_t k = t.u(); SimpleString u(s.asCharString() + k); s = u; R = R.substr(k); }
+                else if (w == ":appp") { size_t k = t.u(); s += s.asCharString() + k; R = R + R.substr(k); }
+                else if (w == ":apps") { s += s; R = R + R; }
+                else if (w == ":repl") { size_t k1 = t.u(), k2 = t.u(); s.replace(s.asCharString() + k1, s.asCharString() + k2); R = refReplace(R, R.substr(k1), R.substr(k2)); }
+                else if (w == ":cmpp") { size_t k = t.u(); const char* p = s.asCharString() + k; std::string rb = R.substr(k);
+                    bool eq = s == p, co = s.contains(p), st = s.startsWith(p), en = s.endsWith(p); size_t cn = s.count(p);
+                    std::string e; e += (char)eq; e += (char)co; e += (char)st; e += (char)en; e += le8(cn); log.push_back(e);
+                    ref = ref && eq == (R == rb) && (s != p) == !eq && co == (R.find(rb) != std::string::npos) && st == (R.compare(0, rb.size(), rb) == 0) && en == ends(R, rb) && cn == cnt(R, rb); }
+                else if (w == ":cmps") { bool eq = s == s, co = s.contains(s), st = s.startsWith(s), en = s.endsWith(s); size_t cn = s.count(s);
+                    std::string e; e += (char)eq; e += (char)co; e += (char)st; e += (char)en; e += le8(cn); log.push_back(e);
+                    ref = ref && eq && !(s != s) && co && st && en && cn == cnt(R, R); }
+                else if (w == ":sstr") { size_t k1 = t.u(), k2 = t.u(); const char* p = s.asCharString(); const char* r = SimpleString::StrStr(p + k1, p + k2);
+                    log.push_back(le8(r ? (size_t)(r - (p + k1)) : SimpleString::npos)); ref = ref && r == strstr(p + k1, p + k2); }
+                else if (w == ":scmp") { size_t k1 = t.u(), k2 = t.u(); const char* p = s.asCharString(); int r = sgn(SimpleString::StrCmp(p + k1, p + k2));
+                    log.push_back(std::string(1, (char)(r + 1))); ref = ref && r == sgn(strcmp(p + k1, p + k2)); }
+                else { fprintf(stderr, "bad alias op %s\n", w.c_str()); exit(3); }
+                ref = ref && R == s.asCharString() && s.size() == R.size();
+            }
+            std::vector<std::string> v; v.push_back(s.asCharString()); for (auto& e : log) v.push_back(e);
+            val = listTok(v);
         }
     }
     else { fprintf(stderr, "bad op %s\n", op.c_str()); exit(3); }
